@@ -142,3 +142,61 @@ func VH_C14_contain() {
 		}
 	}
 }
+
+// VH_C14_wildcard: containment for wildcard sources. "t/x*" is copied to a destination path that
+// may not exist yet; the matches are files, directories and symlinks whose targets point outside
+// the destination root (as resolved from where the copy puts them). Whatever the first match turns
+// the destination path into, later matches are not written through it: nothing outside the
+// destination root is created, changed or removed.
+func VH_C14_wildcard() {
+	m.Reset()
+	out, src, dst := m.Root("out"), m.Root("src"), m.Root("dst")
+	m.MkFile(out+"/secret", []byte("s"), 0600, 1, 1, 5)
+	m.MkDir(out+"/sub", 0700, 1, 1, 5)
+	m.SetMtime(out, 5)
+	m.MkDir(src+"/t", 0755, 2, 2, 7)
+	targets := []string{"../out/sub", "../out/secret", "../../out/sub", out + "/sub", "nowhere"}
+	for _, n := range []string{"x1", "x2", "x3"} {
+		switch v.Choose("kind-"+n, 4) {
+		case 1:
+			m.MkFile(src+"/t/"+n, []byte(n), 0644, 2, 2, 7)
+		case 2:
+			m.MkDir(src+"/t/"+n, 0755, 2, 2, 7)
+			m.MkFile(src+"/t/"+n+"/k", []byte("k"), 0644, 2, 2, 7)
+		case 3:
+			m.MkSymlink(src+"/t/"+n, targets[v.Choose("target-"+n, len(targets))], 2, 2, 7)
+			v.Cover("symlink-match")
+		}
+	}
+	switch v.Choose("dst-state", 3) {
+	case 1:
+		m.MkDir(dst+"/o", 0700, 3, 3, 7)
+	case 2:
+		m.MkDir(dst+"/o", 0700, 3, 3, 7)
+		m.MkDir(dst+"/o/p", 0700, 3, 3, 7)
+	}
+	dstArg := []string{"o", "o/", "o/p", "n/m"}[v.Choose("dst-arg", 4)]
+	allBefore := m.SnapshotAll()
+	m.ClearOps()
+	ci := CopyInfo{AllowWildcards: true, CopyDirContents: v.Bool("dir-contents"), AlwaysReplaceExistingDestPaths: v.Bool("always-replace")}
+	err := Copy(context.Background(), src, "t/x*", dst, dstArg, WithCopyInfo(ci))
+	v.Observe("failed", err != nil)
+	var before, after []m.Entry
+	for _, e := range allBefore {
+		if e.Path != "dst" && !vh_isUnder(e.Path, "dst") {
+			before = append(before, e)
+		}
+	}
+	for _, e := range m.SnapshotAll() {
+		if e.Path != "dst" && !vh_isUnder(e.Path, "dst") {
+			after = append(after, e)
+		}
+	}
+	v.Assert(vh_snapEqual(before, after), "a wildcard copy creates, changes or removes nothing outside the destination root")
+	for _, op := range m.Ops() {
+		if op.Kind != "read" {
+			v.Assert(op.Path == dst || vh_isUnder(op.Path, dst), "every mutating operation of a wildcard copy resolves inside the destination root")
+		}
+	}
+	v.Cover("done")
+}
